@@ -1,7 +1,7 @@
 (* C14 -- the tables of Gen/GenCodegen.v (regenerated from /repo on every run) packaged as the parameters of
    Model/Fmt.v (formatter), Model/FmtPratt.v (parser) and the renderer. *)
 From Coq Require Import List NArith Bool Arith.
-From PV Require Import Lib.ListX Model.FmtLit Model.FmtPratt Model.Fmt Model.FmtStmt Gen.GenCodegen.
+From PV Require Import Lib.ListX Model.FmtLit Model.FmtPratt Model.Fmt Model.FmtTy Model.FmtStmt Gen.GenCodegen.
 Import ListNotations.
 Local Open Scope N_scope.
 
@@ -79,3 +79,6 @@ Definition parse_expr_prql (fuel : nat) (ts : list tok) : option expr := parse_e
 Definition fmt_prog_toks (ss : list stmt) : list tok := fmt_prog F_prql ss.
 Definition fmt_prog_text (ss : list stmt) : str := render R_prql (fmt_prog F_prql ss).
 Definition parse_prog_prql (fuel : nat) (ts : list tok) : option (list stmt) := parse_prog P_prql fuel ts.
+
+(* type expressions *)
+Definition fmt_ty_text (t : ty) : str := render R_prql (fmt_ty t).
